@@ -112,7 +112,7 @@ Plan generate_plan(const Desc& d, const Variant& v, const Profile& pf, uint64_t 
     auto fill_gv = [&](Op& op) {
         op.gv.resize(d.nleaves);
         for (int i = 0; i < d.nleaves; ++i) op.gv[i] = rng.chance(p_true);
-        if (pf.cond_defer) op.cond = (uint32_t)rng.next();
+        op.cond = (uint32_t)rng.next();   // conditional-deferral decisions of this op (backmp11 is_event_deferred)
     };
     auto attach_faults = [&](Op& op, int idx) {
         bool want_posts = pf.post_rate > 0 && rng.chance(pf.post_rate * post_scale) && !postable.empty();
